@@ -97,12 +97,22 @@ def run(ctx):
             return 'tuple<%s>' % ', '.join(db_type_name(x) for x in t[1:])
         return 'frozen<%s>' % t[2]
 
-    def gen_scalar_pair(k):
+    def gen_scalar_pair(k, allow_sized=False):
         """(canonical, python input) for a key component"""
         for _ in range(50):
             if k == 'timestamp':
                 secs = rng.choice([0, 1, -1, 1700000000, 2 ** 31, -2 ** 31, rng.randint(-62135596800, 253402300799), rng.randint(0, 4102444800)])
                 return secs * 1000, datetime.datetime(1970, 1, 1) + datetime.timedelta(seconds=secs)
+            if allow_sized and k in ('text', 'ascii', 'blob') and rng.random() < 0.04:
+                # serialized sizes around the 8/15/16-bit boundaries (a key component is at most 65535 bytes in Cassandra)
+                n = rng.choice([127, 128, 255, 256, 32766, 32767, 32768, 32769, 40000, 65534, 65535])
+                if k == 'blob':
+                    v = rng.randbytes(n)
+                else:
+                    two = rng.randint(0, 8) if k == 'text' else 0
+                    body = ''.join(chr(rng.randint(32, 126)) for _ in range(64))
+                    v = (body * (n // 64 + 1))[:n - 2 * two] + '\xe9' * two
+                return v, (v if k != 'blob' else rng.choice([bytes, bytearray])(v))
             v = G.gen_scalar(rng, k)
             if k in ('text', 'ascii', 'blob') and len(v) == 0:
                 continue
@@ -114,7 +124,7 @@ def run(ctx):
     def gen_pair(t, udt_cls=None):
         k = t[0]
         if k in SCALAR_COLS:
-            return gen_scalar_pair(k)
+            return gen_scalar_pair(k, allow_sized=True)       # a whole key component; inside tuples / user types the sum would exceed 65535
         if k == 'tuple':
             pairs = []
             for ft in t[1:]:
@@ -436,6 +446,8 @@ def run(ctx):
                 ctx.count("routing_keys_equal")
                 ctx.count("routing_keys_equal:" + opname)
                 ctx.count("routing_keys_composite" if len(parts) > 1 else "routing_keys_single")
+                if len(parts) > 1 and max(len(p) for p in parts) >= 32768:
+                    ctx.count("routing_keys_composite_with_component_of_32768_to_65535_bytes")
                 for n in sp.pk:
                     ctx.count("key_component:" + type(sp.cols[n][3]).__name__)
                 if len(parts) > 1 and len(ctx.samples) < 6 and rng.random() < 0.01:
@@ -542,7 +554,7 @@ def run(ctx):
 
     ctx.floor_distinct = 1500 if ctx.quick else 40000
     fl = {"routing_keys_equal": 2000, "routing_keys_composite": 1000, "routing_keys_single": 300, "unrouted_statements_without_key": 300,
-          "models_with_overridden_key_column": 20, "models_with_inherited_key_column_redeclared_with_another_type": 20,
+          "models_with_overridden_key_column": 20, "routing_keys_composite_with_component_of_32768_to_65535_bytes": 10, "models_with_inherited_key_column_redeclared_with_another_type": 20,
           "models_with_key_column_added_by_the_subclass": 10, "models_with_concrete_base": 10, "models_inheriting_keys_without_redeclaring": 10, "models_npk_1": 30, "models_npk_2": 30, "models_npk_3": 30, "histories": 3}
     for op in ('create', 'save', 'save_null', 'update', 'delete', 'get', 'model_get', 'first', 'list', 'chained', 'qs_update', 'qs_delete', 'ttl_create'):
         fl["routing_keys_equal:" + op] = 30
